@@ -392,9 +392,33 @@ class Interp:
                 cm.__exit__(None, None, None)
 
     # ---- loops ---------------------------------------------------------------------------------
+    _ordinals: Dict[int, Dict[int, int]] = {}
+
+    def loop_ordinal(self, fr: Frame, st) -> int:
+        """Static ordinal of a loop statement within its function (source order; nested defs have their own numbering)."""
+        fn = fr.fi.node
+        key = id(fn)
+        if key not in self._ordinals:
+            table: Dict[int, int] = {}
+
+            def walk(body):
+                for s_ in body:
+                    if isinstance(s_, (ast.For, ast.While)):
+                        table[id(s_)] = len(table)
+                    for fld in ('body', 'orelse', 'finalbody', 'handlers'):
+                        sub = getattr(s_, fld, None)
+                        if not sub or isinstance(s_, (ast.FunctionDef, ast.ClassDef, ast.AsyncFunctionDef)):
+                            continue
+                        for h in sub:
+                            if isinstance(h, ast.ExceptHandler):
+                                walk(h.body)
+                        walk([x for x in sub if isinstance(x, ast.stmt)])
+            walk(fn.body if not isinstance(fn, ast.Lambda) else [])
+            self._ordinals[key] = table
+        return self._ordinals[key].get(id(st), -1)
+
     def st_While(self, st, fr):
-        ordinal = fr.loop_ordinal
-        fr.loop_ordinal += 1
+        ordinal = self.loop_ordinal(fr, st)
         spec = self.registry.loop_spec(fr.fi.qualname, ordinal) if self.registry else None
         if spec is not None and not self.concrete:
             return self.loop_cut_while(st, fr, spec, ordinal)
@@ -417,8 +441,7 @@ class Interp:
                 continue
 
     def st_For(self, st, fr):
-        ordinal = fr.loop_ordinal
-        fr.loop_ordinal += 1
+        ordinal = self.loop_ordinal(fr, st)
         it = self.eval(st.iter, fr)
         items = self.lib.concrete_iter(self, it)
         if items is not None:
@@ -967,8 +990,12 @@ class Interp:
             fi = FuncInfo(func.node, func.frame.fi.module, func.frame.fi.qualname + '.' + func.name,
                           owner=func.frame.fi.owner)
             spec = self.registry.call_spec(fi.qualname) if self.registry else None
-            if spec is not None and not self.concrete:
-                return spec(self, None, args, kwargs, node)
+            if spec is not None and not self.concrete and not getattr(func, 'inlining', False):
+                func.inlining = True
+                try:
+                    return spec(self, func, args, kwargs, node)
+                finally:
+                    func.inlining = False
             return self.call_function(fi, args, kwargs, closure_frame=func.frame, defaults=func.defaults,
                                       kwdefaults=func.kwdefaults, self_obj=func.frame.self_obj)
         if isinstance(func, BoundMethod):
@@ -1058,7 +1085,7 @@ class Interp:
         ga = self._static_attr(obj.cls, '__getattr__')
         if ga is not _MISSING:
             fi = from_real(ga)
-            return self.call_function(fi, [obj, name], {}, self_obj=obj)
+            return self.call(BoundMethod(obj, fi), [name], {}, node)
         self.raise_(AttributeError, f'{name}')
 
     def _static_attr(self, cls, name, after=None):
